@@ -185,13 +185,24 @@ func genC02(r *rand.Rand, n int, emit func(string)) {
 		cfg := cfgCopy()
 		code := randCode(r, cfg)
 		typ := types[i%3]
-		d, c, b := oneOp(r, code, typ, opb.Window{})
+		// the second operation is anchored at time 20: mostly no window, sometimes one that holds 20,
+		// one not yet open, one already closed (a tampered operation outside its window is still tampered)
+		w, wl := opb.Window{}, ""
+		switch r.Intn(8) {
+		case 0:
+			w, wl = opb.Window{From: 10, Until: 30}, "+in-window"
+		case 1:
+			w, wl = opb.Window{From: 30, Until: 40}, "+window-not-open"
+		case 2:
+			w, wl = opb.Window{From: 1, Until: 5}, "+window-closed"
+		}
+		d, c, b := oneOp(r, code, typ, w)
 		ms := mutsFor(typ)
-		label := typ + "/valid"
+		label := typ + "/valid" + wl
 		if r.Intn(8) != 0 {
 			m := ms[r.Intn(len(ms))]
 			m.f(r, b, cfg)
-			label = typ + "/" + m.label
+			label = typ + "/" + m.label + wl
 		}
 		creq, req := c.bytes(r), b.bytes(r)
 		uri := uriTableOfRequest(creq)
@@ -240,7 +251,20 @@ func genC03(r *rand.Rand, n int, emit func(string)) {
 		mod := deepCopy(req).(map[string]interface{})
 		sd := mod["suffixData"].(map[string]interface{})
 		dl := mod["delta"].(map[string]interface{})
-		switch r.Intn(7) {
+		switch r.Intn(8) {
+		case 7:
+			// a well-formed multihash whose digest is a proper prefix of the true one (length field
+			// consistent; the empty digest included), alone or with another delta: "the delta must hash to
+			// the delta hash" is about the whole hash
+			h := sd["deltaHash"].(string)
+			if raw, err := opb.B64.DecodeString(h); err == nil && len(raw) > 2 {
+				n := pick(r, []int{0, 1, 16, len(raw) - 3})
+				sd["deltaHash"] = opb.B64E(append([]byte{raw[0], byte(n)}, raw[2:2+n]...))
+				if r.Intn(2) == 0 {
+					dl["patches"] = docPatches(r)
+				}
+				mk(opb.Canon(mod), "create/delta-hash-truncated-digest")
+			}
 		case 6:
 			const al = "ABCDEFGHIJKLMNOPQRSTUVWXYZabcdefghijklmnopqrstuvwxyz0123456789-_"
 			h := sd["deltaHash"].(string)
@@ -303,7 +327,16 @@ func genC04chain(r *rand.Rand, n int, emit func(string)) {
 			mergeTab(uri, uriTableOfRequest(x))
 			reqs = append(reqs, proto.Hex(x))
 		}
-		x := d.nextDeactivate(opb.Window{}).bytes(r)
+		db := d.nextDeactivate(opb.Window{})
+		switch r.Intn(4) {
+		case 0:
+			// the signed data's own (optional, never validated) reveal value names another key: the reveal
+			// value the parser reports is the request's, the one it checked against the recovery key
+			db.Signed["revealValue"] = opb.NewKey(r, opb.P256).Reveal(code)
+		case 1:
+			delete(db.Signed, "revealValue")
+		}
+		x := db.bytes(r)
 		reqs = append(reqs, proto.Hex(x))
 		emit(proto.Line("getters", M{"cfg": cfg, "reqs": reqs, "uri": uri}))
 	}
